@@ -39,6 +39,8 @@ def fmt_op(o, body=None):
             return json.dumps(c['str'])
         if 'fn' in c:
             return 'fn:' + (c['fn'].get('resolved') or c['fn']['path'])
+        if 'static' in c:
+            return 'static:' + c['static']
         return 'const(%s)' % c.get('opaque')
     return json.dumps(o)
 
